@@ -49,3 +49,34 @@ PROPS['C18'] = dict(
     assumptions=TRUST + ['the underlying writer obeys io.WriterAt (accepts at most what it is offered, reports an error when it accepts less)',
                          'offsets are below 2^29 (TLC integers); AtToWriter is exercised without SeekEnd (its limit is MaxInt64 by construction)'],
 )
+
+TB = dict(module='Trace_Bitmap', cfg='Trace_Bitmap.cfg')
+PROPS['C01'] = dict(
+    trace=TB, mc=dict(quick=[], thorough=[]), need_kinds=['rank', 'masks'],
+    rule='a case is one bitmap (0-10 words, plus a few of 20-50): every constant word pattern x every word count, all single-bit and adjacent-two-bit bitmaps over 3 words, '
+         'seeded mixes of 21 word patterns with empty words; the event holds IndexRank64 (default/false/true), IndexRank128 and the (rank, bit) pair of Rank64 (both indexes) '
+         'and Rank128 at EVERY position, judged against Bitmap!Rank/BitAt; plus one event with the six exported mask tables complete; '
+         'distinct = distinct bitmaps, non-trivial = at least one 1-bit',
+    assumptions=TRUST,
+)
+PROPS['C02'] = dict(
+    trace=TB, mc=dict(quick=[], thorough=[]), need_kinds=['select'],
+    rule='a case is one bitmap: shared pattern families, every single-byte word b<<8j (the whole in-byte lookup table), exactly 32k-1/32k/32k+1 ones, '
+         'first/last word only with 1-6 empty words between, single bits at 7/8/15/16/31/32/63; the event holds IndexSelect32, both IndexSelect32R64 slices and the result pair of '
+         'Select32 and Select32R64 for EVERY i in [0,n), judged against the ascending enumeration of the 1-bits; distinct = distinct bitmaps, non-trivial = at least one 1-bit',
+    assumptions=TRUST,
+)
+PROPS['C13'] = dict(
+    trace=TB, mc=dict(quick=[], thorough=[]), need_kinds=['scan'],
+    rule='a case is one bitmap with up to 450 ranges (i,end) whose ends are 64k-1/64k/64k+1, the neighbours of 1-bits and random points, 0<=i<=end<=64*len, i inside; '
+         'NextOne and PrevOne (end>=1) at every range judged against Min/Max of {p in ones : i<=p<end}; families: shared patterns, all single-bit bitmaps over 6 words, '
+         '1-bits separated by 1-5 empty words at offsets 0/63; distinct = distinct (bitmap, ranges), non-trivial = bitmap has a 1-bit',
+    assumptions=TRUST,
+)
+PROPS['C14'] = dict(
+    trace=TB, mc=dict(quick=[], thorough=[]), need_kinds=['join', 'slice'],
+    rule='join: all seven widths x value lists of length 0..3*64/w+1 with values 0, 2^w-1, 2^w (must vanish), all-ones, random; the returned words and Getw at every index are judged; '
+         'slice: pattern bitmaps x ranges from word-boundary and random end points, result length and bits and the untouched input are judged; '
+         'distinct = distinct inputs, non-trivial = non-empty value list / non-empty range',
+    assumptions=TRUST,
+)
